@@ -33,7 +33,10 @@ def generate(ctx):
         yield {"part": "interp", "pair": i % len(PAIRS), "dt": rng.choice([1.0, 0.5, 0.1, 1.3, 2.5]),
                "seed": rng.randrange(1 << 30), "const": rng.choice([0.5, 2.0, 7.5, 20.0, 100.0]),
                "shape": list(rng.choice([(5,), (3, 4), (2, 3, 2)])),
-               "adjust": rng.choice([None, "half", "zero", "clamp", "identity"])}
+               "adjust": rng.choice([None, "half", "zero", "clamp", "identity"]),
+               # bracket observations that are not finite (the NaN fill of an event record, an "infinitely long ago" marker):
+               # the pairs that REPLACE a bracket by the sample must still hand the sample back
+               "nonfinite": rng.random() < 0.35}
     for _ in range(600 if th else 40):
         dist = rng.choice(["Poisson", "Normal", "LogNormal"])
         if dist == "Poisson":
@@ -85,6 +88,13 @@ def _interp(ctx, desc):
     sample = torch.randn(shape, generator=g, dtype=torch.float64) * 10
     prev = torch.randn(shape, generator=g, dtype=torch.float64) * 10
     nxt = torch.randn(shape, generator=g, dtype=torch.float64) * 10
+    if desc.get("nonfinite") and desc["pair"] < 6:
+        pf, nf_ = prev.view(-1), nxt.view(-1)
+        pf[0], nf_[0] = float("inf"), float("-inf")
+        pf[-1] = float("nan")
+        if nf_.numel() > 2:
+            nf_[1] = float("nan")
+        ctx.count("roundtrips_with_nonfinite_brackets")
     fracs = [0.0, 1e-6, 0.1, 0.25, 0.5 - 1e-6, 0.5, 0.5 + 1e-6, 0.75, 0.9, 1 - 1e-6, 1.0]
     efn, ifn = getattr(inff, "extrap_" + ex), getattr(inff, "interp_" + ip)
     # the linear pairs document an optional adjustment f of the bracket they keep: X(0) = f(D(0)) (forward) or
@@ -128,6 +138,8 @@ def _interp(ctx, desc):
             ctx.violation(f"interp.roundtrip.{ex}->{ip}", f"interp(extrap(x)) != x at sample_at={fr}*dt", desc,
                           {"frac": fr, "err": float((back - sample).abs().max())})
             return
+    if desc.get("nonfinite") and desc["pair"] < 6:
+        return
     # linear interpolation: between the brackets, equal to them at the ends
     for fr in [0.0, 0.2, 0.5, 0.8, 1.0]:
         sat = torch.full(shape, fr * dt, dtype=torch.float64)
